@@ -233,7 +233,9 @@ func (rr *routingRun) checkUnserved(p world.Probe, rawPath, where string) {
 		res.inc("probes_skipped_routing_deviation_is_c08")
 		return
 	}
+	rr.drawAuthority()
 	obs := rr.w.Serve(p, rawPath, "", nil)
+	rr.w.URLAuthority = ""
 	if obs.Panic != nil {
 		res.fail("C11/panic", "%s: ServeHTTP %v panicked: %v", where, p, obs.Panic)
 		return
